@@ -186,6 +186,8 @@ def run(ctx, prop=PROP, check_values=False, gen=None, rule=None):
         'the Coq model computes masks only; numeric results are not compared here']
     if ctx.ensure_library():
         ctx.prove(['theories/Props/%s.v' % prop])
+        if prop == 'C01':
+            ctx.logic_obligations()        # regenerated from the current source: see coq/obl/Lgc_C01.v
     cases = (gen or gen_cases)(ctx.rng, ctx.tier, ops)
     terms, idx, bad, nsig = [], [], set(), {}
     for i, c in enumerate(cases):
